@@ -75,6 +75,9 @@ type Ctx struct {
 	foralls []forallRec
 	skn     int
 	rootFrame *Frame
+	defs    map[string]string // named definitions (name -> term), for syntactic frame checks
+	frameTop string           // allocation horizon used by loop frame conditions
+	loopTop  map[int]string   // loop header -> allocation horizon at the loop head
 }
 
 type inputVar struct {
@@ -107,6 +110,10 @@ func (c *Ctx) name(pfx, sort, term string) string {
 	c.n++
 	nm := fmt.Sprintf("%s_%d", pfx, c.n)
 	c.decls = append(c.decls, fmt.Sprintf("(define-fun %s () %s %s)", nm, sort, term))
+	if c.defs == nil {
+		c.defs = map[string]string{}
+	}
+	c.defs[nm] = term
 	return nm
 }
 func (c *Ctx) assume(reach, f string) {
